@@ -1,37 +1,258 @@
-from orchestrate.common import run_check
+import os
+import random
+import subprocess
+from collections import Counter
+
+from orchestrate.common import run_check, ROOT
+
+# ---------------------------------------------------------------------------------------------
+# Independent reference for the SPECIFICATION (not used by any proof): Austin Appleby's published
+# MurmurHash3_x64_128 in unsigned 64-bit arithmetic, seed 0, with Cassandra's single deviation
+# (tail bytes are sign-extended because Java's byte is signed).  It reproduces the published
+# vectors mmh3.hash64("foo") / ("hello"), the pangram digest e34bbc7bbc071b6c7a433ca9c49a9347 and
+# agreed with a JVM running the Java source on 181 high-bit inputs when the slice was built.
+# At check time it is compared (a) with the Coq specification hash3_x64_128 (driver kind S) and
+# (b) with the implementation's own H/W outputs.  A mismatch is a broken correspondence (`diff`).
+M64 = (1 << 64) - 1
+
+
+def _rotl(x, r):
+    return ((x << r) | (x >> (64 - r))) & M64
+
+
+def _fmix(k):
+    k ^= k >> 33
+    k = (k * 0xff51afd7ed558ccd) & M64
+    k ^= k >> 33
+    k = (k * 0xc4ceb9fe1a85ec53) & M64
+    k ^= k >> 33
+    return k
+
+
+def ref_hash3_x64_128(data):
+    n = len(data)
+    nb = n // 16
+    h1 = h2 = 0
+    c1, c2 = 0x87c37b91114253d5, 0x4cf5ad432745937f
+    for i in range(nb):
+        k1 = int.from_bytes(data[16 * i:16 * i + 8], "little")
+        k2 = int.from_bytes(data[16 * i + 8:16 * i + 16], "little")
+        k1 = (k1 * c1) & M64; k1 = _rotl(k1, 31); k1 = (k1 * c2) & M64; h1 ^= k1
+        h1 = _rotl(h1, 27); h1 = (h1 + h2) & M64; h1 = (h1 * 5 + 0x52dce729) & M64
+        k2 = (k2 * c2) & M64; k2 = _rotl(k2, 33); k2 = (k2 * c1) & M64; h2 ^= k2
+        h2 = _rotl(h2, 31); h2 = (h2 + h1) & M64; h2 = (h2 * 5 + 0x38495ab5) & M64
+    tail = data[16 * nb:]
+
+    def t(i):                       # (long) of a signed Java byte, as an unsigned 64-bit word
+        b = tail[i]
+        return (b - 256 if b >= 128 else b) & M64
+    k1 = k2 = 0
+    for i in range(len(tail) - 1, 7, -1):
+        k2 ^= (t(i) << (8 * (i - 8))) & M64
+    if len(tail) > 8:
+        k2 = (k2 * c2) & M64; k2 = _rotl(k2, 33); k2 = (k2 * c1) & M64; h2 ^= k2
+    for i in range(min(len(tail), 8) - 1, -1, -1):
+        k1 ^= (t(i) << (8 * i)) & M64
+    if len(tail) > 0:
+        k1 = (k1 * c1) & M64; k1 = _rotl(k1, 31); k1 = (k1 * c2) & M64; h1 ^= k1
+    h1 ^= n; h2 ^= n
+    h1 = (h1 + h2) & M64; h2 = (h2 + h1) & M64
+    h1 = _fmix(h1); h2 = _fmix(h2)
+    h1 = (h1 + h2) & M64; h2 = (h2 + h1) & M64
+    return h1, h2
+
+
+def _s64(x):
+    return x - (1 << 64) if x >= (1 << 63) else x
+
+
+def _hexz(v):
+    return "-%x" % -v if v < 0 else "%x" % v
+
+
+def ref_token(data):
+    v = _s64(ref_hash3_x64_128(data)[0])
+    return (1 << 63) - 1 if v == -(1 << 63) else v
+
+
+PUBLISHED = [  # standard function on ASCII input (= Cassandra's there) and the repository's vectors
+    (b"foo", (-2129773440516405919, 9128664383759220103)),
+    (b"hello", (-3758069500696749310, 6565844092913065241)),
+    (b"The quick brown fox jumps over the lazy dog", (_s64(0xe34bbc7bbc071b6c), 0x7a433ca9c49a9347)),
+]
+REPO_TOKENS = [(b"test", -6017608668500074083), (b"xd", 4507812186440344727),
+               (b"primary_key", -1632642444691073360), ("kremówki".encode(), 4354931215268080151)]
+
+
+def _unhex(s):
+    return b"" if s == "-" else bytes.fromhex(s)
+
+
+def _spec_lines(seed):
+    """inputs for the spec tie: every length 0..80 with bytes >= 0x80, block multiples, random"""
+    rnd = random.Random(seed * 1000003 + 17)
+    ins = [w for w, _ in PUBLISHED] + [w for w, _ in REPO_TOKENS]
+    for n in range(0, 81):
+        ins.append(bytes(rnd.randrange(128, 256) for _ in range(n)))
+        ins.append(bytes([0xff]) * n)
+    for _ in range(120):
+        n = rnd.choice([rnd.randrange(0, 700), 16 * rnd.randrange(1, 40) + rnd.randrange(-1, 2)])
+        hi = rnd.random() < 0.7
+        ins.append(bytes((rnd.randrange(128, 256) if hi else rnd.randrange(256)) for _ in range(n)))
+    out = []
+    for d in ins:
+        h1, h2 = ref_hash3_x64_128(d)
+        out.append("S %s | %s %s" % (d.hex() if d else "-", _hexz(_s64(h1)), _hexz(_s64(h2))))
+    return out
+
+
+def _k2_signed(data):
+    """does the stream exercise the sign extension of the k2 tail half?"""
+    r = len(data) % 16
+    return r >= 9 and any(b >= 0x80 for b in data[len(data) - r + 8:])
+
+
+def post(lines, verdicts):
+    probs = []
+    # the reference itself against the published / repository vectors
+    for w, (a, b) in PUBLISHED:
+        h1, h2 = ref_hash3_x64_128(w)
+        if (_s64(h1), _s64(h2)) != (a, b):
+            probs.append(("diff", "S " + w.hex(), "diff reference-disagrees-with-published-vector"))
+    for w, t in REPO_TOKENS:
+        if ref_token(w) != t:
+            probs.append(("diff", "S " + w.hex(), "diff reference-disagrees-with-repository-vector"))
+    # (a) SPEC tie: Coq hash3_x64_128 (extracted) vs the reference
+    sl = _spec_lines(int(os.environ.get("VERIF_SEED", "1")))
+    drv = os.path.join(ROOT, "ocaml", "c03", "driver")
+    p = subprocess.run([drv], input="\n".join(sl) + "\n", stdout=subprocess.PIPE, stderr=subprocess.PIPE,
+                       text=True, timeout=1200)
+    sv = p.stdout.splitlines()
+    post.spec_cases = len(sl)
+    post.spec_k2 = sum(1 for l in sl if _k2_signed(_unhex(l.split()[1])))
+    if len(sv) != len(sl):
+        probs.append(("diff", "S -", "error driver-died on the spec tie"))
+    for l, v in zip(sl, sv):
+        if v != "ok":
+            probs.append(("diff", l, v if v.startswith("diff") else "diff " + v))
+    # (b) the reference against the implementation's own Murmur3 outputs, and coverage census
+    kinds = Counter()
+    cen = Counter()
+    refchecked = 0
+    for ln in lines:
+        case, _, obs = ln.partition(" | ")
+        f = case.split(" ")
+        kinds[f[0]] += 1
+        if f[0] in ("H", "W"):
+            if f[1] == "c":
+                cen["cdc_hash"] += 1
+                continue
+            if len(f[2]) > 2400:
+                continue
+            if f[0] == "H":
+                data = _unhex(f[2])
+            else:
+                data = b"".join(b"" if c in (".", "-") else bytes.fromhex(c) for c in f[2].split(","))
+                if "," in f[2]:
+                    cen["multi_chunk"] += 1
+            if _k2_signed(data):
+                cen["k2_signed_tail"] += 1
+            refchecked += 1
+            if obs.strip() != _hexz(ref_token(data)):
+                probs.append(("diff", ln[:300], "diff reference=" + _hexz(ref_token(data))))
+        elif f[0] == "K":
+            o = obs.split(" ")
+            wire = [] if f[3] == "-" else [int(x, 16) for x in f[3].split(",")]
+            if len(wire) >= 2 and wire != sorted(wire) and o[2].startswith("some:"):
+                cen["permuted_key_ok"] += 1
+            if o[0] == "panic" or o[0].startswith("err:"):
+                cen["k_malformed"] += 1
+            if "err:toolong" in obs:
+                cen["too_long"] += 1
+            if f[1] == "c":
+                cen["k_cdc"] += 1
+            if len(wire) >= 5:
+                cen["k_5plus_components"] += 1
+        elif f[0] == "T":
+            if "err:toolong" in obs:
+                cen["too_long"] += 1
+        elif f[0] == "P":
+            if obs.startswith("c "):
+                cen["p_cdc"] += 1
+            if obs.startswith("none "):
+                cen["p_unknown"] += 1
+    post.census = dict(cen)
+    post.refchecked = refchecked
+    if len(lines) >= 50000:      # a generated run (not a replay): what the evidence claims must have happened
+        floors = {"H": 10000, "W": 10000, "K": 10000, "T": 2000, "P": 1000}
+        for k, fl in floors.items():
+            if kinds[k] < fl:
+                probs.append(("diff", k, f"diff coverage floor: only {kinds[k]} {k} cases (< {fl})"))
+        cfl = {"k2_signed_tail": 3000, "multi_chunk": 5000, "cdc_hash": 1500, "permuted_key_ok": 3000,
+               "k_malformed": 300, "too_long": 4, "k_cdc": 1000, "k_5plus_components": 1000,
+               "p_cdc": 100, "p_unknown": 100}
+        for k, fl in cfl.items():
+            if cen[k] < fl:
+                probs.append(("diff", k, f"diff coverage floor: only {cen[k]} cases of class {k} (< {fl})"))
+        if post.spec_k2 < 60:
+            probs.append(("diff", "S", f"diff coverage floor: only {post.spec_k2} spec-tie inputs with a signed k2 tail"))
+    return probs
+
+
+def extra_coverage(lines, verdicts):
+    return {"spec_tie_cases_vs_independent_reference": getattr(post, "spec_cases", 0),
+            "spec_tie_cases_with_signed_k2_tail": getattr(post, "spec_k2", 0),
+            "impl_murmur3_outputs_checked_against_reference": getattr(post, "refchecked", 0),
+            "census": getattr(post, "census", {})}
+
 
 SPEC = {
     "pid": "C03",
     "coq_targets": ["Props/C03.vo", "Extract/ExC03.vo"],
     "bin": "c03",
-    "sizes": {"quick": 60000, "thorough": 1000000},
+    "sizes": {"quick": 60000, "thorough": 400000},
+    "min_cases": {"quick": 55000, "thorough": 350000},
     "search_n": 300000,
+    "post": post,
+    "extra_coverage": extra_coverage,
     "rule": ("fixed sweeps: H = hash_one on every length 0..70 x 4 byte classes (>=0x80 dense, 0xff, uniform, "
              "0x80/0x7f) and every multiple / near-multiple of 16 up to 4 KiB; W = write/finish over every 2- and "
              "3-split of a 48-byte string; K = every placement of k<=4 (thorough 5) key markers among k..k+2 "
-             "markers, the 65534..65537-byte component boundary; plus seeded random cases: H, W (random chunkings, "
-             "chunk sizes around 0/1/8/16/32), K (1..8 key components among <=16 markers, permuted, non-key markers "
-             "value/null/unset interleaved; 15% malformed: null key component, duplicate / out-of-range pk index, "
-             "missing values, missing column specs, not token aware), T = calculate_token_for_partition_key; "
-             "1/6 of the cases use the CDC partitioner; non-trivial = every case except empty inputs; "
-             "distinct = distinct case lines"),
+             "markers (1/5 CDC), the 65534..65537-byte component boundary; P = partitioner class names; plus seeded "
+             "random cases: H, W (random chunkings, chunk sizes around 0/1/8/16/32), K (1..8 key components among "
+             "<=16 markers, permuted, non-key markers value/null/unset interleaved; 15% malformed: null key "
+             "component, duplicate / out-of-range pk index, missing values, missing column specs, not token aware), "
+             "T = calculate_token_for_partition_key, P = PartitionerName::from_str + default on exact, suffixed, "
+             "truncated, concatenated and unknown names; 1/6 of the cases use the CDC partitioner; post: per-kind "
+             "and per-class floors (signed k2 tails, permuted keys, malformed, too long, CDC, unknown names), the "
+             "Coq SPEC hash3_x64_128 vs an independent unsigned reference on ~300 inputs (kind S), the same "
+             "reference vs every Murmur3 H/W output of the implementation; non-trivial = every case except empty "
+             "inputs; distinct = distinct case lines"),
     "nontrivial": lambda ln: not (ln.startswith("H m - ") or ln.startswith("H c - ") or ln.startswith("W m - ")
                                   or ln.startswith("W c - ") or ln.startswith("T m - ") or ln.startswith("T c - ")),
     "trusted_base": [
         "murmur3_spec is Cassandra's MurmurHash.hash3_x64_128 (seed 0, first long) transcribed from the Java source; "
-        "cross-checked in Coq on the four literal vectors of partitioner.rs and by the tie on every generated input",
-        "cdc_token_spec and spec_serialized_key are transcribed from the property text",
-        "hook scylla::statement::verif_prepared (PreparedStatement from a deserialized PREPARED response; pass-throughs "
-        "to PartitionKey::new / write_encoded_partition_key / calculate_token_untyped / calculate_token_for_partition_key)",
-        "the runner's own encoder of the RESULT/Prepared body and of the [short n][value]* block fed to the crate's parsers",
+        "cross-checked in Coq on the four literal vectors of partitioner.rs, three published MurmurHash3_x64_128 "
+        "vectors (both halves), four JVM-generated vectors with signed bytes in both tail halves, and at check time "
+        "against the independent reference in checks/c03.py",
+        "cdc_token_spec is the rule documented in partitioner.rs itself (no independent source offline); only its "
+        "16-byte case (C03_cdc_stream_id) is claimed against the server; spec_serialized_key is from the property text",
+        "hooks scylla::statement::verif_prepared (PreparedStatement from a deserialized PREPARED response; pass-throughs "
+        "to PartitionKey::new / write_encoded_partition_key / calculate_token_untyped / calculate_token_for_partition_key) "
+        "and scylla::routing::verif_partitioner (PartitionerName::from_str)",
+        "the runner's own encoder of the RESULT/Prepared body and of the [short n][value]* block fed to the crate's "
+        "parsers; the runner rebuilds `name.and_then(from_str).unwrap_or_default()` from the hook and the real Default",
     ],
     "assumptions": [
         "hashed streams are shorter than 2^63 bytes (premise of C03_chunking / C03_feed / C03_token)",
-        "inside the quantifier (key_ok): pk indexes distinct, each names an existing marker bound to a value, at most "
-        "65535 bound values; outside it the model still follows the code (panics and errors are compared exactly)",
-        "u16 overflow in PartitionKey::new is modelled as a panic (the harness is built with overflow checks)",
+        "inside the quantifier (key_ok, decided exactly by key_okb): pk indexes distinct, each names an existing "
+        "marker bound to a value, at most 65535 bound values; outside it the model still follows the code (panics and "
+        "errors are compared exactly)",
+        "debug semantics: the harness is built with overflow-checks, so u16 overflow in PartitionKey::new is a panic "
+        "in model and tie; a release build wraps and returns NoPkIndexValue (outside the quantifier, not tied)",
     ],
 }
+
 
 def main(argv):
     return run_check(SPEC, argv)
